@@ -40,6 +40,9 @@ type CrashDS struct {
 	dead    bool
 	noPanic bool // multi-goroutine mode: return ErrDead instead of panicking
 	logOn   bool
+	// QueryOrder: how an unordered Query iterates. go-datastore promises no order unless the query asks
+	// for one: "" / "sorted" = lexicographic (badger), "reverse", "scrambled" (by a hash of the key, like a map)
+	QueryOrder string
 }
 
 var _ ds.Batching = (*CrashDS)(nil)
@@ -70,7 +73,11 @@ func (d *CrashDS) Image() map[string][]byte {
 }
 
 // Clone returns a fresh live datastore on a copy of the current image.
-func (d *CrashDS) Clone() *CrashDS { return FromImage(d.Image()) }
+func (d *CrashDS) Clone() *CrashDS {
+	c := FromImage(d.Image())
+	c.QueryOrder = d.QueryOrder
+	return c
+}
 
 // Ops returns the number of durable ops executed (or attempted) so far.
 func (d *CrashDS) Ops() int {
@@ -226,6 +233,14 @@ func (d *CrashDS) Query(ctx context.Context, q dsq.Query) (dsq.Results, error) {
 		keys = append(keys, k)
 	}
 	sort.Strings(keys) // badger iterates in lexicographic key order
+	switch d.QueryOrder {
+	case "reverse":
+		for i, j := 0, len(keys)-1; i < j; i, j = i+1, j-1 {
+			keys[i], keys[j] = keys[j], keys[i]
+		}
+	case "scrambled":
+		sort.Slice(keys, func(i, j int) bool { return scramble(keys[i]) < scramble(keys[j]) })
+	}
 	entries := make([]dsq.Entry, 0, len(keys))
 	for _, k := range keys {
 		e := dsq.Entry{Key: k, Size: len(d.data[k])}
@@ -299,6 +314,15 @@ func (b *crashBatch) Commit(ctx context.Context) error {
 			}
 		}
 	})
+}
+
+func scramble(k string) uint64 {
+	h := uint64(1469598103934665603)
+	for i := 0; i < len(k); i++ {
+		h ^= uint64(k[i])
+		h *= 1099511628211
+	}
+	return h
 }
 
 // KeysWithPrefix lists the keys under a prefix (sorted).
